@@ -153,6 +153,13 @@ fn main() {
             let s = checks::sample::run_sector(&lines, a.seed, opt("base_idx").and_then(|s| s.parse().ok()).unwrap_or(0), opt("points").and_then(|s| s.parse().ok()).unwrap_or(3));
             write_summary(&a, &s);
         }
+        "replay-dd" => {
+            let lines = read_lines(a.input.as_ref().unwrap());
+            let max = opt("max").and_then(|s| s.parse().ok()).unwrap_or(usize::MAX);
+            let lines: Vec<_> = lines.into_iter().take(max).collect();
+            let s = checks::ddprec::run(&lines, a.seed, opt("base_idx").and_then(|s| s.parse().ok()).unwrap_or(0), opt("points").and_then(|s| s.parse().ok()).unwrap_or(4));
+            write_summary(&a, &s);
+        }
         "replay-flow" => {
             let lines = read_lines(a.input.as_ref().unwrap());
             let s = checks::flow::replay(&lines, a.seed, &opt("trace").expect("--opt trace=FILE"));
